@@ -185,8 +185,8 @@ func init() {
 		Assumptions: []string{timeAssumption, netAssumption, fifoAssumption,
 			"'all per-connection goroutines have ended' is read as 'end without any further external event' (checked at quiescence, not at the instant Shutdown returns)",
 			"a handler may only be cancelled after the grace timer fired or after its client disconnected"},
-		Quick:    cat(db(100, B{{2, 0}, {3, 0}}, c16one...), db(100, B{{2, 0}}, c16two...), pb(100, B{{0, 0}, {1, 0}}, "shut-fast", "shut-late"), db(100, B{{4, 0}}, "shut-late")),
-		Thorough: cat(db(1500, B{{3, 0}, {4, 0}, {5, 0}}, c16one...), db(1500, B{{3, 0}}, c16two...), pb(1500, B{{1, 0}, {2, 0}, {3, 0}}, c16one...)),
+		Quick:    cat(db(100, B{{2, 0}, {3, 0}}, c16one...), db(100, B{{2, 0}}, c16two...), pb(100, B{{0, 0}, {1, 0}}, "shut-fast", "shut-late"), db(100, B{{4, 0}}, "shut-late"), pb(100, B{{0, 0}}, c16one...), pb(100, B{{0, 0}}, "shut-closeerr-slow", "shut-closeerr-fast")),
+		Thorough: cat(db(1500, B{{3, 0}, {4, 0}, {5, 0}}, c16one...), db(1500, B{{3, 0}}, c16two...), pb(1500, B{{0, 0}, {1, 0}, {2, 0}, {3, 0}}, c16one...), split(4, pb(1500, B{{0, 0}}, c16two...))),
 	}
 
 	plans["C15"] = Plan{
@@ -196,17 +196,18 @@ func init() {
 			"directly on one BatchExecutor and through two real server connections. distinct = distinct (scenario, outcome) classes. " + boundingNote,
 		Assumptions: []string{netAssumption, fifoAssumption, "placeholder accesses are declared to the scheduler as conflicting accesses so that the state cache cannot merge their orders"},
 		Keep:        hasPrefix("fail:placeholder", "panic:"),
-		Quick: cat(pb(100, B{{0, 0}}, "ph-seq-exhaustive-t", "ph-seq-exhaustive-mw"), pb(100, B{{2, 0}, {3, 0}}, "ph-conc-2", "ph-conc-2-mw", "ph-conc-2-mw3", "ph-conc-2-fail", "ph-conc-2-after-undo", "ph-conc-2-after-count", "ph-conc-2-after-version",
+		Quick: cat(pb(100, B{{0, 0}}, "ph-seq-exhaustive-t", "ph-seq-exhaustive-mw", "ph-seq-nested", "ph-seq-nested-2exec"), pb(100, B{{2, 0}, {3, 0}}, "ph-conc-2", "ph-conc-2-mw", "ph-conc-2-mw3", "ph-conc-2-fail", "ph-conc-2-after-undo", "ph-conc-2-after-count", "ph-conc-2-after-version",
 			"ph-conc-2-after-faileditem", "ph-conc-2-after-panic", "ph-conc-2-after-ok", "ph-conc-2-after-undo-undo"), pb(100, B{{1, 0}, {2, 0}}, "ph-conc-3"),
 			db(100, B{{2, 0}}, "ph-srv-seq", "ph-srv-2conn")),
-		Thorough: cat(pb(1500, B{{0, 0}}, "ph-seq-exhaustive-x", "ph-seq-exhaustive-mw"), pb(1500, B{{3, 0}, {4, 0}, {5, 0}}, "ph-conc-2", "ph-conc-2-mw", "ph-conc-2-mw3", "ph-conc-2-fail", "ph-conc-2-after-undo", "ph-conc-2-after-count", "ph-conc-2-after-version",
+		Thorough: cat(pb(1500, B{{0, 0}}, "ph-seq-exhaustive-x", "ph-seq-exhaustive-mw", "ph-seq-nested", "ph-seq-nested-2exec"), pb(1500, B{{3, 0}, {4, 0}, {5, 0}}, "ph-conc-2", "ph-conc-2-mw", "ph-conc-2-mw3", "ph-conc-2-fail", "ph-conc-2-after-undo", "ph-conc-2-after-count", "ph-conc-2-after-version",
 			"ph-conc-2-after-faileditem", "ph-conc-2-after-panic", "ph-conc-2-after-ok", "ph-conc-2-after-undo-undo"), pb(1500, B{{2, 0}, {3, 0}}, "ph-conc-3"),
 			db(1500, B{{3, 0}, {4, 0}}, "ph-srv-seq", "ph-srv-2conn"), pb(1500, B{{1, 0}}, "ph-srv-seq", "ph-srv-2conn")),
 	}
 
 	c20two := []string{"codec:enc-req10-ttlv||enc-req14-ttlv", "codec:enc-req10-ttlv||dec-req12-ttlv", "codec:enc-resp14-xml||enc-resp12-json", "codec:enc-create11-xml||enc-create14-ttlv",
 		"codec:dec-resp13-xml||enc-resp14-xml", "codec:dec-create14-json||enc-create11-xml", "codec:reuse-10-then-14||reuse-14-then-10"}
-	c20same := []string{"codec:enc-eckey-a-ttlv||enc-eckey-b-ttlv", "codec:enc-eckey-a-ttlv||enc-eckey-b-xml", "codec:dec-resp13-xml||dec-resp13-xml", "codec:enc-req14-ttlv||enc-req14-ttlv", "codec:enc-resp14-xml||enc-resp14-xml"}
+	c20same := []string{"codec:enc-eckey-a-ttlv||enc-eckey-b-ttlv", "codec:enc-eckey-a-ttlv||enc-eckey-b-xml", "codec:dec-resp13-xml||dec-resp13-xml", "codec:enc-req14-ttlv||enc-req14-ttlv", "codec:enc-resp14-xml||enc-resp14-xml",
+		"codec:dec-custattr-a-ttlv||dec-custattr-b-xml", "codec:dec-custattr-a-ttlv||dec-custattr-c-json"}
 	c02heavy := []string{"codec:dec-req12-ttlv||dec-req12-ttlv", "codec:dec-create14-json||dec-create14-json"}
 	c02conc := []string{"codec:dec-resp13-xml||dec-resp13-xml",
 		"codec:dec-trunc-req12-ttlv||dec-req12-ttlv", "codec:dec-trunc-resp13-xml||dec-trunc-resp13-xml", "codec:dec-trunc-create14-json||dec-create14-json"}
@@ -250,7 +251,7 @@ func init() {
 		Rule: "all interleavings (at the per-type plan cache operations Load/Store of the instrumented ttlv package, caches reset to cold before every execution) of 2-3 threads each encoding/decoding " +
 			"messages of different versions and formats, compared with the result of the same call run alone from cold caches; all histories of <= 3 (thorough 4) operations from cold caches; and all ordered pairs (A, B) of the rich baseline messages " +
 			"(27 operations x request/response x versions {1.0, 1.4}, thorough 1.0..1.4) x {binary, XML, JSON, text}: B on an encoder that encoded A and was cleared, and Marshal(A) then Marshal(B) from cold caches, each compared with B alone (and A's returned bytes re-read afterwards); distinct = distinct (scenario, outcome) classes. " + boundingNote,
-		Assumptions: []string{"sequentially consistent memory; the 'no data race' clause is examined separately by a free-running -race pass (supporting evidence, not exhaustive)",
+		Assumptions: []string{"sequentially consistent memory; the 'no data race' clause is examined separately by a free-running -race pass: every unordered pair of the codec operations (an operation with itself included) on two goroutines in a fresh process, plus mixed rounds of 2-4 goroutines (all pairs of operations are covered, their schedules are not: supporting evidence, not exhaustive)",
 			"scheduling points are the sync.Map operations of the plan caches (the only synchronisation in the codec)"},
 		Keep:     hasPrefix("fail:codec-result", "panic:", "race:"),
 		Pre:      codecPre,
